@@ -609,3 +609,82 @@ func (a *RF) Rewrite(f func(at *Atom, args []*RF) *RF) *RF {
 	}
 	return rf(a)
 }
+
+// Deriv: derivative of a with respect to atom id, treating every other atom
+// (including function applications that do not mention id) as constant.
+// ok=false when id occurs inside a function application.
+func (a *RF) Deriv(id AtomID) (*RF, bool) {
+	s := a.S
+	for _, at := range a.Atoms(false) {
+		if at.ID == id {
+			continue
+		}
+		for _, sub := range at.Args {
+			for _, in := range sub.Atoms(true) {
+				if in.ID == id {
+					return nil, false
+				}
+			}
+		}
+	}
+	dp := func(p *Poly) *RF {
+		acc := s.Int(0)
+		for _, t := range p.terms {
+			for i, v := range t.vars {
+				if v != id {
+					continue
+				}
+				// d/dx c*x^e*rest = c*e*x^(e-1)*rest
+				x := s.Const(new(big.Rat).Mul(t.coef, big.NewRat(int64(t.exps[i]), 1)))
+				for j, w := range t.vars {
+					e := t.exps[j]
+					if j == i {
+						e--
+					}
+					if e != 0 {
+						x = x.Mul(s.atomRF(w).Pow(e))
+					}
+				}
+				acc = acc.Add(x)
+			}
+		}
+		return acc
+	}
+	n := &RF{N: a.N, D: polyConst(big.NewRat(1, 1)), S: s}
+	d := &RF{N: a.D, D: polyConst(big.NewRat(1, 1)), S: s}
+	dn, dd := dp(a.N), dp(a.D)
+	return dn.Mul(d).Sub(n.Mul(dd)).Div(d.Mul(d)), true
+}
+
+// LinearIn: decomposes a = Σ c_k * atom_k + rest over the atoms named `name`
+// (each occurring to the first power, not in denominators, not nested).
+func (a *RF) LinearIn(name string) (terms map[AtomID]*big.Rat, rest *RF, ok bool) {
+	s := a.S
+	if c, isC := a.D.isConst(); !isC || c.Cmp(big.NewRat(1, 1)) != 0 {
+		return nil, nil, false
+	}
+	terms = map[AtomID]*big.Rat{}
+	restP := newPoly()
+	for _, t := range a.N.terms {
+		var hit []int
+		for i, v := range t.vars {
+			if s.atoms[v].Name == name {
+				hit = append(hit, i)
+			}
+		}
+		switch {
+		case len(hit) == 0:
+			restP.addTerm(t.vars, t.exps, t.coef)
+		case len(hit) == 1 && len(t.vars) == 1 && t.exps[0] == 1:
+			id := t.vars[0]
+			if old, ok := terms[id]; ok {
+				terms[id] = new(big.Rat).Add(old, t.coef)
+			} else {
+				terms[id] = new(big.Rat).Set(t.coef)
+			}
+		default:
+			return nil, nil, false
+		}
+	}
+	return terms, &RF{N: restP, D: polyConst(big.NewRat(1, 1)), S: s}, true
+}
